@@ -162,21 +162,37 @@ class RegexVM:
         return None
 
     def _execute(
-        self, string: str, start_pos: int, anchored: bool
-    ) -> Optional[MatchResult]:
+        self,
+        string: str,
+        start_pos: int,
+        anchored: bool,
+        pc: int = 0,
+        captures: Optional[List[List[int]]] = None,
+        end_pos: Optional[int] = None,
+        kind: str = "re",
+    ):
         """
         Execute bytecode against string.
 
-        This is the main execution loop.
+        This is the one execution loop.  A match attempt starts at pc 0 and
+        returns a MatchResult (or None).  The bodies of lookahead and
+        lookbehind assertions are run by the same loop (kind "la" / "lb"),
+        starting at the instruction after the assertion opcode with a copy of
+        the current captures; such a run returns the captures when it reaches
+        LOOKAHEAD_END / LOOKBEHIND_END (a lookbehind body must end exactly at
+        end_pos), None when it fails.  Every run has the same step, stack and
+        polling budgets.
         """
         # Execution state
-        pc = 0  # Program counter
         sp = start_pos  # String position
         step_count = 0
 
         # Capture positions: list of (start, end) for each group
         # -1 means unset
-        captures = [[-1, -1] for _ in range(self.capture_count)]
+        if captures is None:
+            captures = [[-1, -1] for _ in range(self.capture_count)]
+        else:
+            captures = [c.copy() for c in captures]
 
         # Registers for position tracking (ReDoS protection)
         registers: List[int] = []
@@ -186,7 +202,7 @@ class RegexVM:
 
         while True:
             if _verif_hook is not None:
-                _verif_hook(self, "re", pc, sp, len(stack), step_count)
+                _verif_hook(self, kind, pc, sp, len(stack), step_count)
             # Check limits periodically
             step_count += 1
             self._poll()
@@ -515,91 +531,52 @@ class RegexVM:
                         return None
                     pc, sp, captures, registers = self._backtrack(stack)
 
-            elif opcode == Op.LOOKAHEAD:
+            elif opcode in (Op.LOOKAHEAD, Op.LOOKAHEAD_NEG):
                 end_offset = instr[1]
-                # Save current state and try to match lookahead
-                saved_sp = sp
-                saved_captures = [c.copy() for c in captures]
-
-                # Create sub-execution for lookahead, passing current captures
-                la_captures = self._execute_lookahead(
-                    string, sp, pc + 1, end_offset, captures
+                # Run the body at the current position; the position is not consumed
+                la_captures = self._execute(
+                    string, sp, False, pc + 1, captures, None, "la"
                 )
-
-                if la_captures is not None:
-                    # Lookahead succeeded - restore position but keep captures from lookahead
-                    sp = saved_sp
-                    captures = la_captures  # Use captures from lookahead
+                if (la_captures is not None) == (opcode == Op.LOOKAHEAD):
+                    if la_captures is not None:
+                        captures = la_captures  # captures made inside a positive lookahead stay
                     pc = end_offset
                 else:
-                    # Lookahead failed
-                    if not stack:
-                        return None
-                    pc, sp, captures, registers = self._backtrack(stack)
-
-            elif opcode == Op.LOOKAHEAD_NEG:
-                end_offset = instr[1]
-                saved_sp = sp
-                saved_captures = [c.copy() for c in captures]
-
-                la_captures = self._execute_lookahead(
-                    string, sp, pc + 1, end_offset, captures
-                )
-
-                if la_captures is None:
-                    # Negative lookahead succeeded (inner didn't match)
-                    sp = saved_sp
-                    captures = saved_captures  # Keep original captures
-                    pc = end_offset
-                else:
-                    # Negative lookahead failed (inner matched)
                     if not stack:
                         return None
                     pc, sp, captures, registers = self._backtrack(stack)
 
             elif opcode == Op.LOOKAHEAD_END:
-                # Successfully matched lookahead content
-                return MatchResult([], 0, "")  # Special marker
+                # The body of a lookahead matched
+                return captures
 
-            elif opcode == Op.LOOKBEHIND:
+            elif opcode in (Op.LOOKBEHIND, Op.LOOKBEHIND_NEG):
                 end_offset = instr[1]
-                saved_sp = sp
-                saved_captures = [c.copy() for c in captures]
-
-                # Try lookbehind - match pattern ending at current position
-                lb_result = self._execute_lookbehind(string, sp, pc + 1, end_offset)
-
-                if lb_result:
-                    # Lookbehind succeeded - restore position and continue after
-                    sp = saved_sp
-                    captures = saved_captures
+                # The body must match some text that ends at the current position
+                lb_captures = None
+                for lb_start in range(sp, -1, -1):
+                    lb_captures = self._execute(
+                        string, lb_start, False, pc + 1, captures, sp, "lb"
+                    )
+                    if lb_captures is not None:
+                        break
+                if (lb_captures is not None) == (opcode == Op.LOOKBEHIND):
+                    if lb_captures is not None:
+                        captures = lb_captures
                     pc = end_offset
                 else:
-                    # Lookbehind failed
-                    if not stack:
-                        return None
-                    pc, sp, captures, registers = self._backtrack(stack)
-
-            elif opcode == Op.LOOKBEHIND_NEG:
-                end_offset = instr[1]
-                saved_sp = sp
-                saved_captures = [c.copy() for c in captures]
-
-                lb_result = self._execute_lookbehind(string, sp, pc + 1, end_offset)
-
-                if not lb_result:
-                    # Negative lookbehind succeeded (inner didn't match)
-                    sp = saved_sp
-                    captures = saved_captures
-                    pc = end_offset
-                else:
-                    # Negative lookbehind failed (inner matched)
                     if not stack:
                         return None
                     pc, sp, captures, registers = self._backtrack(stack)
 
             elif opcode == Op.LOOKBEHIND_END:
-                return MatchResult([], 0, "")  # Special marker
+                # The body of a lookbehind matched: it counts only if it ends where
+                # the assertion stands, otherwise try its other alternatives
+                if sp == end_pos:
+                    return captures
+                if not stack:
+                    return None
+                pc, sp, captures, registers = self._backtrack(stack)
 
             elif opcode == Op.SET_POS:
                 reg_idx = instr[1]
@@ -657,234 +634,3 @@ class RegexVM:
         before = pos > 0 and is_word_char(string[pos - 1])
         after = pos < len(string) and is_word_char(string[pos])
         return before != after
-
-    def _execute_lookahead(
-        self,
-        string: str,
-        start_pos: int,
-        start_pc: int,
-        end_pc: int,
-        input_captures: List[List[int]],
-    ) -> Optional[List[List[int]]]:
-        """Execute bytecode for lookahead assertion.
-
-        Returns the captures list if lookahead succeeds, None if it fails.
-        This preserves captures made inside the lookahead.
-        """
-        # Start with a copy of input captures to preserve outer captures
-        pc = start_pc
-        sp = start_pos
-        captures = [c.copy() for c in input_captures]
-        registers: List[int] = []
-        stack: List[Tuple] = []
-        step_count = 0
-
-        while True:
-            if _verif_hook is not None:
-                _verif_hook(self, "la", pc, sp, len(stack), step_count)
-            step_count += 1
-            self._poll()
-
-            if len(stack) > self.stack_limit:
-                raise RegexStackOverflow("Regex stack overflow")
-
-            if pc >= end_pc:
-                return None
-
-            instr = self.bytecode[pc]
-            opcode = instr[0]
-
-            if opcode == Op.LOOKAHEAD_END:
-                return captures  # Return captures made inside lookahead
-
-            # Handle SAVE_START/SAVE_END to capture groups inside lookahead
-            if opcode == Op.SAVE_START:
-                group_idx = instr[1]
-                if group_idx < len(captures):
-                    captures[group_idx][0] = sp
-                pc += 1
-
-            elif opcode == Op.SAVE_END:
-                group_idx = instr[1]
-                if group_idx < len(captures):
-                    captures[group_idx][1] = sp
-                pc += 1
-
-            elif opcode == Op.CHAR:
-                char_code = instr[1]
-                if sp >= len(string):
-                    if not stack:
-                        return None
-                    pc, sp, captures, registers = stack.pop()
-                    continue
-                ch = string[sp]
-                if self.ignorecase:
-                    match = ord(ch.lower()) == char_code or ord(ch.upper()) == char_code
-                else:
-                    match = ord(ch) == char_code
-                if match:
-                    sp += 1
-                    pc += 1
-                else:
-                    if not stack:
-                        return None
-                    pc, sp, captures, registers = stack.pop()
-
-            elif opcode == Op.DOT:
-                if sp >= len(string) or string[sp] == "\n":
-                    if not stack:
-                        return None
-                    pc, sp, captures, registers = stack.pop()
-                    continue
-                sp += 1
-                pc += 1
-
-            elif opcode == Op.SPLIT_FIRST:
-                alt_pc = instr[1]
-                stack.append(
-                    (alt_pc, sp, [c.copy() for c in captures], registers.copy())
-                )
-                pc += 1
-
-            elif opcode == Op.SPLIT_NEXT:
-                alt_pc = instr[1]
-                stack.append(
-                    (pc + 1, sp, [c.copy() for c in captures], registers.copy())
-                )
-                pc = alt_pc
-
-            elif opcode == Op.JUMP:
-                pc = instr[1]
-
-            elif opcode == Op.MATCH:
-                return captures
-
-            else:
-                # Handle other opcodes similarly to main loop
-                pc += 1
-
-    def _execute_lookbehind(
-        self, string: str, end_pos: int, start_pc: int, end_pc: int
-    ) -> bool:
-        """Execute bytecode for lookbehind assertion.
-
-        Lookbehind matches if the pattern matches text ending at end_pos.
-        We try all possible start positions backwards from end_pos.
-        """
-        # Try all possible starting positions from 0 to end_pos
-        # We want the pattern to match and end exactly at end_pos
-        for start_pos in range(end_pos, -1, -1):
-            result = self._try_lookbehind_at(
-                string, start_pos, end_pos, start_pc, end_pc
-            )
-            if result:
-                return True
-        return False
-
-    def _try_lookbehind_at(
-        self, string: str, start_pos: int, end_pos: int, start_pc: int, end_pc: int
-    ) -> bool:
-        """Try to match lookbehind pattern from start_pos, checking it ends at end_pos."""
-        pc = start_pc
-        sp = start_pos
-        captures = [[-1, -1] for _ in range(self.capture_count)]
-        registers: List[int] = []
-        stack: List[Tuple] = []
-        step_count = 0
-
-        while True:
-            if _verif_hook is not None:
-                _verif_hook(self, "lb", pc, sp, len(stack), step_count)
-            step_count += 1
-            self._poll()
-
-            if len(stack) > self.stack_limit:
-                raise RegexStackOverflow("Regex stack overflow")
-
-            if pc >= end_pc:
-                return False
-
-            instr = self.bytecode[pc]
-            opcode = instr[0]
-
-            if opcode == Op.LOOKBEHIND_END:
-                # Check if we ended exactly at the target position
-                return sp == end_pos
-
-            if opcode == Op.CHAR:
-                char_code = instr[1]
-                if sp >= len(string):
-                    if not stack:
-                        return False
-                    pc, sp, captures, registers = stack.pop()
-                    continue
-                ch = string[sp]
-                if self.ignorecase:
-                    match = ord(ch.lower()) == char_code or ord(ch.upper()) == char_code
-                else:
-                    match = ord(ch) == char_code
-                if match:
-                    sp += 1
-                    pc += 1
-                else:
-                    if not stack:
-                        return False
-                    pc, sp, captures, registers = stack.pop()
-
-            elif opcode == Op.DOT:
-                if sp >= len(string) or string[sp] == "\n":
-                    if not stack:
-                        return False
-                    pc, sp, captures, registers = stack.pop()
-                    continue
-                sp += 1
-                pc += 1
-
-            elif opcode == Op.DIGIT:
-                if sp >= len(string) or not string[sp].isdigit():
-                    if not stack:
-                        return False
-                    pc, sp, captures, registers = stack.pop()
-                    continue
-                sp += 1
-                pc += 1
-
-            elif opcode == Op.WORD:
-                if sp >= len(string):
-                    if not stack:
-                        return False
-                    pc, sp, captures, registers = stack.pop()
-                    continue
-                ch = string[sp]
-                if ch.isalnum() or ch == "_":
-                    sp += 1
-                    pc += 1
-                else:
-                    if not stack:
-                        return False
-                    pc, sp, captures, registers = stack.pop()
-
-            elif opcode == Op.SPLIT_FIRST:
-                alt_pc = instr[1]
-                stack.append(
-                    (alt_pc, sp, [c.copy() for c in captures], registers.copy())
-                )
-                pc += 1
-
-            elif opcode == Op.SPLIT_NEXT:
-                alt_pc = instr[1]
-                stack.append(
-                    (pc + 1, sp, [c.copy() for c in captures], registers.copy())
-                )
-                pc = alt_pc
-
-            elif opcode == Op.JUMP:
-                pc = instr[1]
-
-            elif opcode == Op.MATCH:
-                # Check if we ended exactly at the target position
-                return sp == end_pos
-
-            else:
-                # Handle other opcodes - advance pc
-                pc += 1
